@@ -1043,11 +1043,15 @@ def ref_dump(spec, value, env: Env):  # noqa: C901, PLR0911, PLR0912
         return value
     if tag == "list":
         return [ref_dump(spec[1], x, env) for x in value]
-    if tag in ("set", "frozenset", "vtuple", "deque"):
+    if tag in ("set", "frozenset"):
+        # deterministic order: the iteration order of a set is not (hash(nan) is address based), and the order of a
+        # dumped set is not significant anyway (comparisons use dumped_eq)
+        return tuple(ref_dump(spec[1], x, env) for x in sorted(value, key=lambda o: repr(canon(o))))
+    if tag in ("vtuple", "deque"):
         return tuple(ref_dump(spec[1], x, env) for x in value)
     if tag == "abc":
-        seq = [ref_dump(spec[2], x, env) for x in value]
-        return seq if ABC_IMPL[spec[1]] is list and False else tuple(seq)
+        items = sorted(value, key=lambda o: repr(canon(o))) if isinstance(value, (set, frozenset)) else value
+        return tuple(ref_dump(spec[2], x, env) for x in items)
     if tag == "tuple":
         return tuple(ref_dump(t, x, env) for t, x in zip(spec[1], value))
     if tag in ("dict", "mapping", "mutablemapping", "defaultdict"):
